@@ -63,6 +63,8 @@ type C13Case struct {
 	Deadline    bool     `json:"deadline"`     // callers have a (long) deadline
 	HeaderFirst bool     `json:"header_first"` // stream callers call Header() before receiving
 	Ser         bool     `json:"ser"`
+	// Burst: the whole sequence is written back to back, without waiting for the client to digest each envelope
+	Burst bool `json:"burst,omitempty"`
 }
 
 func (c C13Case) names() []string {
@@ -78,6 +80,7 @@ func genC13(t *rapid.T) C13Case {
 	al := c13Alphabet()
 	c := C13Case{KindA: rapid.SampledFrom(allKinds).Draw(t, "ka"), KindB: rapid.SampledFrom(allKinds).Draw(t, "kb"),
 		Stats: rapid.Bool().Draw(t, "stats"), Deadline: rapid.Bool().Draw(t, "deadline"), HeaderFirst: rapid.Bool().Draw(t, "hf"), Ser: rapid.Bool().Draw(t, "ser")}
+	c.Burst = rapid.Bool().Draw(t, "burst")
 	n := rapid.IntRange(1, 30).Draw(t, "len")
 	for i := 0; i < n; i++ {
 		// runs of the same envelope matter (they fill the one-slot queues), so repeat the previous symbol with probability 1/3
@@ -208,8 +211,11 @@ func execC13(t *testing.T, c C13Case) (v Verdict) {
 			}
 			e := al[s.Shape].Env
 			_ = l.B.Write(context.Background(), e.Build(ids[s.Target], method, kit.ServerName, "c0"))
-			kit.Settle()
+			if !c.Burst {
+				kit.Settle()
+			}
 		}
+		kit.Settle()
 		tap = tp.Snapshot()
 		// the connection is closed: every call must now terminate
 		l.Close()
@@ -296,7 +302,7 @@ func execC13(t *testing.T, c C13Case) (v Verdict) {
 			hits++
 		}
 	}
-	v.Info = kit.CaseInfo{Labels: []string{lenClass, "A=" + kit.KindNames[c.KindA], "B=" + kit.KindNames[c.KindB], fmt.Sprintf("stats=%v", c.Stats)},
+	v.Info = kit.CaseInfo{Labels: []string{lenClass, "A=" + kit.KindNames[c.KindA], "B=" + kit.KindNames[c.KindB], fmt.Sprintf("stats=%v", c.Stats), fmt.Sprintf("burst=%v", c.Burst)},
 		NonTrivial: hits >= 1, Key: fmt.Sprintf("%+v", c), Sample: map[string]any{"calls": []string{kit.KindNames[c.KindA], kit.KindNames[c.KindB]}, "sequence": c.names(), "stats": c.Stats}}
 	if v.Fail != "" {
 		v.Detail = map[string]any{"sequence": c.names(), "wire": tapSummary(tap, 100)}
@@ -352,7 +358,7 @@ func FuzzC13(f *testing.F) {
 		}
 		al := len(c13Alphabet())
 		cfg := int(data[0])
-		c := C13Case{KindA: cfg % 4, KindB: (cfg / 4) % 4, Stats: (cfg/16)%2 == 1, HeaderFirst: (cfg/32)%2 == 1, Deadline: (cfg/64)%2 == 1, Ser: (cfg/128)%2 == 1}
+		c := C13Case{KindA: cfg % 4, KindB: (cfg / 4) % 4, Stats: (cfg/16)%2 == 1, HeaderFirst: (cfg/32)%2 == 1, Deadline: (cfg/64)%2 == 1, Ser: (cfg/128)%2 == 1, Burst: len(data)%2 == 0}
 		for i := 1; i+1 < len(data) && i < 80; i += 2 {
 			c.Seq = append(c.Seq, C13Sym{Shape: int(data[i]) % al, Target: int(data[i+1]) % 3})
 		}
